@@ -44,6 +44,11 @@ void rotenc_decode(rotenc_t *r, uint8_t state)
 
 uint16_t rotenc_count14(rotenc_t *r)
 {
-	return ((r->internal_count >> 2) & 0x3f00) + r->count;
+	/* the count is latched at full width. Combining the live upper bits
+	 * of internal_count with a latched lower byte gives wild readings
+	 * whenever the two disagree (part way through a click next to a
+	 * multiple of 256).
+	 */
+	return r->count;
 }
 
